@@ -93,6 +93,36 @@ def _evaluator_model(ctx: Ctx, cls, f: FunctionInfo, batch: tuple, cached0: tupl
     return it.run(f, env), state
 
 
+def yields_verdict(ctx: Ctx, cls, f: FunctionInfo) -> tuple[Optional[bool], str]:
+    """does evaluate_async hand back the whole batch, in order, on every model batch? (used by C12.R5)"""
+    from ..modelinterp import Sym, Budget
+    und = ""
+    for batch, cached in BATCHES:
+        try:
+            results, state = _evaluator_model(ctx, cls, f, batch, cached)
+        except Budget:
+            und = "too many interpretations"
+            continue
+        for trace, rv, notes in results:
+            ys: list = []
+            for e in trace:
+                if e.kind == "yield":
+                    v = e.args[0]
+                    if e.name == "from":
+                        if isinstance(v, list):
+                            ys.extend(x.tag if isinstance(x, Sym) else "?" for x in v)
+                        else:
+                            ys.append("?")
+                    else:
+                        ys.append(v.tag if isinstance(v, Sym) else "?")
+            if "?" in ys:
+                und = und or "yielded values not followed"
+            elif ys != list(batch):
+                return False, (f"batch {list(batch)} (cached: {list(cached)}) yields {ys}: an individual that is not handed back is never "
+                               f"compared with the best")
+    return (None, und) if und else (True, "")
+
+
 def rule_r1_r2(ctx: Ctx) -> None:
     """Model check: every evaluate_async implementation is interpreted on ten batches of symbolic individuals (cached /
     uncached, duplicates, empty) with methods of the evaluator inlined through the class hierarchy.  Reference semantics:
